@@ -90,7 +90,10 @@ def run(a, res, bins, prop='C07'):
                 key, rep = classify_artifact(prop, binp, ap)
                 res.counters['fuzz:artifacts'] = res.counters.get('fuzz:artifacts', 0) + 1
                 if key is None:
-                    res.counters['fuzz:artifacts-not-reproducing(not-judged)'] = res.counters.get('fuzz:artifacts-not-reproducing(not-judged)', 0) + 1
+                    # the process stopped on an input that is harmless on its own: a defect of the harness (e.g. in the mutator) or state carried between
+                    # executions - either way this run did not do what it claims
+                    res.counters['fuzz:artifacts-not-reproducing'] = res.counters.get('fuzz:artifacts-not-reproducing', 0) + 1
+                    res.harness_errors.append('fuzz pass: process %d stopped with an artifact that does not reproduce alone: %s' % (j, text[-800:]))
                     continue
                 if ':asan-oom:' in key:   # allocator limits are not verdicts (DESIGN 1); the production pass of h_fits judges those inputs
                     res.counters['asan-allocator-limit-not-judged'] = res.counters.get('asan-allocator-limit-not-judged', 0) + 1
